@@ -249,16 +249,7 @@ def goArgCount (spec : BuiltinSpec) (ctx : Option (Val N)) (argv : List (Option 
   if undefHandler spec.uh argv1 then .ok none
   else
     let paramCount := spec.params.length
-    let rec pad (i fuel : Nat) (a : List (Option (Val N))) : List (Option (Val N)) :=
-      match fuel with
-      | 0 => a
-      | f + 1 =>
-        if i < paramCount then
-          match spec.params[i]? with
-          | some p => if p.isOpt then pad (i + 1) f (a ++ [none]) else a
-          | none => a
-        else a
-    let argv2 := pad argv1.length paramCount argv1
+    let argv2 := padOptional (spec.params.map PT.isOpt) argv1
     if spec.variadic && argv2.length < paramCount - 1 then .error .argCount
     else if !spec.variadic && argv2.length != paramCount then .error .argCount
     else .ok (some argv2)
